@@ -88,7 +88,7 @@ def is_resource_modified(
             # comparing entity-tags for If-Match"
             if_match = parse_etags(http_if_match)
             if if_match:
-                unmodified = not if_match.is_strong(etag)
+                unmodified = not if_match.contains(etag)
 
     return not unmodified
 
